@@ -38,7 +38,13 @@ def tasks(tier, seed):
     # truncations, short strings and header shapes again with debug logging on
     debug = [('debug-logging',) + t for t in base
              if t[0] in ('truncate', 'short', 'shapes', 'nested-short')]
-    return base + debug
+    # every representative frame and its payload truncations once more in a
+    # process that raises warnings as errors (-W error): a frame a peer may
+    # send (a deprecated method, say) must still not make anything but
+    # UnmarshalingException escape
+    strict = [('warnings-as-errors',) + t for t in base
+              if t[0] == 'truncate'] + [('warnings-as-errors', 'intact')]
+    return base + debug + strict
 
 
 def check_one(ctx, data, label):
@@ -72,7 +78,21 @@ def check_one(ctx, data, label):
 
 
 def run(task, ctx):
-    if task[0] == 'debug-logging':
+    if task[0] == 'warnings-as-errors':
+        with lib.warnings_as_errors():
+            if task[1] == 'intact':
+                ctx.rearm(4)
+                for label, data, _fields in fuzzspace.krep():
+                    label += ' [warnings raised as errors]'
+                    deep = check_one(ctx, data, label)
+                    ctx.case((data, 'W'), deep, sample=lambda: {
+                        'label': label, 'input': data[:48].hex(),
+                        'len': len(data)})
+                    ctx.calls()
+                    ctx.valid()
+            else:
+                run_inputs(task[1:], ctx, ' [warnings raised as errors]')
+    elif task[0] == 'debug-logging':
         # process environment: the same inputs with debug logging on
         with lib.debug_logging():
             run_inputs(task[1:], ctx, ' [debug logging on]')
@@ -101,7 +121,9 @@ def run_inputs(task, ctx, env):
 def replay(case, ctx):
     import contextlib
     env = lib.debug_logging() if '[debug logging on]' in case.get(
-        'label', '') else contextlib.nullcontext()
+        'label', '') else lib.warnings_as_errors() \
+        if '[warnings raised as errors]' in case.get('label', '') \
+        else contextlib.nullcontext()
     try:
         with env, runner.guard(20):
             check_one(ctx, bytes.fromhex(case['hex']), case.get('label', ''))
